@@ -1,5 +1,6 @@
 SPECIFICATION MCSpec
 CONSTANTS
+  SpuriousPass = FALSE
   AllSchedules = TRUE
   PermuteModules = FALSE
   Bases = {"u8", "i8", "u16", "i16", "u32", "i32", "u64", "i64", "u128", "i128"}
